@@ -26,6 +26,9 @@ type PermNode struct {
 	ACL      *pb.Acl        // the ACL definition of this account/method
 	Status   ValidateStatus // the ACL validation status of this node
 	Children []*PermNode    // the children of this node, usually are ACL members of account/method
+	// EndsURI is set when some signer uri ends in this node: for an address node that is
+	// the key whose signature was checked for that uri
+	EndsURI bool
 }
 
 // NewPermNode return a default PermNode
@@ -121,6 +124,9 @@ func buildPermTree(root *PermNode, aclMgr base.AclManager,
 			newNode := NewPermNode(akname, accountACL)
 			pnode.Children = append(pnode.Children, newNode)
 			pnode = newNode
+		}
+		if pnode != root {
+			pnode.EndsURI = true
 		}
 	}
 	return root, nil
